@@ -36,6 +36,15 @@ func DocContains(file *ast.File, s string) bool {
 		if strings.Contains(comment.Text(), s) {
 			return true
 		}
+
+		// CommentGroup.Text drops directive-shaped lines (`//word:word` with no space after the
+		// slashes, e.g., `//go:generate mockgen` or `//lint:file-ignore`), so we also search the
+		// raw comment lines.
+		for _, c := range comment.List {
+			if strings.Contains(c.Text, s) {
+				return true
+			}
+		}
 	}
 
 	return false
